@@ -250,7 +250,7 @@ class Ctx:
                     'correspondences': {}}
         self.assumptions = []
         self._distinct = set()
-        self.known = [k for k in load_known() if k.get('property') == pid]
+        self.known = [k for k in load_known() if k.get('property') == pid or pid in k.get('properties', [])]
         self.broken = []   # names of proofs / correspondences that no longer check
 
     # --- counting
@@ -271,7 +271,11 @@ class Ctx:
     # --- findings
     def known_match(self, signature):
         for k in self.known:
-            if k.get('status', 'known') == 'known' and k['signature'] == signature:
+            if k.get('status', 'known') != 'known':
+                continue
+            if k.get('signature') == signature:
+                return k
+            if k.get('signature_regex') and re.fullmatch(k['signature_regex'], signature):
                 return k
         return None
 
@@ -280,8 +284,9 @@ class Ctx:
         unless its signature is a listed known finding."""
         k = self.known_match(signature) if concrete else None
         if k is not None:
-            if signature not in [s for s, _ in self.known_hits]:
-                self.known_hits.append((signature, k.get('summary', summary)))
+            kid = k.get('signature') or k.get('signature_regex')
+            if kid not in [s for s, _ in self.known_hits]:
+                self.known_hits.append((kid, k.get('summary', summary)))
             return False
         for v in self.violations:
             if v['signature'] == signature:
